@@ -214,6 +214,18 @@ theorem runWith_cutoff_mono (rule : Nat → Nat → Nat) (hr : ∀ c n, c ≤ ru
 
 end CSampler
 
+/-! ### `increase_cutoff_to` -/
+
+theorem increaseCutoffTo_spec (c : Nat) (s : CSampler) :
+    (CSampler.increaseCutoffTo c s).cutoff = max s.cutoff c ∧
+    (CSampler.increaseCutoffTo c s).n = s.n ∧
+    (CSampler.increaseCutoffTo c s).len = growLen s.len (max s.cutoff c) ∧
+    (s.Inv → (CSampler.increaseCutoffTo c s).Inv) := by
+  refine ⟨rfl, CSampler.setCutoff_n _ _, CSampler.setCutoff_len _ _, ?_⟩
+  intro h
+  apply CSampler.setCutoff_inv
+  unfold CSampler.Inv at h; omega
+
 /-! ### raw swap and conversion -/
 
 theorem swapSamplers_spec (a b : CSampler) (ha : a.Inv) (hb : b.Inv) :
